@@ -374,6 +374,44 @@ class Templates:
                     out[i + 1] = [e]
         return out or None
 
+    def instances(self, stream, follow="fns"):
+        """The texts a template stands for when one of its interpolated pieces is chosen by the
+        generator's control flow (`let body = match style { Unit => quote!(..), .. }; quote!(#name =>
+        { #body })`): [(token list, blocks)] – one entry per choice, with the blocks where that choice
+        is made (where the piece is built / assigned / returned by a helper call)."""
+        for tk in self.stream_tokens(stream):
+            if tk.kind != "interp" or tk.src is None:
+                continue
+            options = []
+            for s2, sites in self.stream_alts_sites(tk.src):
+                if self.by_stream.get(s2):
+                    options.append((self.render(s2, 1, None, follow), sites + (self.by_stream[s2][0].blk,)))
+            # pieces returned by helper fns of the crate, one call per branch
+            cur = tk.src
+            for _ in range(4):
+                ds = [d for d in self.b.defs().get(cur, []) if not self.b.is_cleanup(d[0])]
+                if len(ds) == 1 and ds[0][2] == "assign" and ds[0][3]["r"]["k"] == "use" and ds[0][3]["r"]["op"]["k"] in ("copy", "move") and not ds[0][3]["r"]["op"]["p"]["proj"]:
+                    cur = ds[0][3]["r"]["op"]["p"]["local"]
+                    continue
+                break
+            for d in [d for d in self.b.defs().get(cur, []) if not self.b.is_cleanup(d[0]) and d[2] == "call"]:
+                name = mir.callee_of(d[3])
+                raws = [r for r in self.b.crate["bodies"] if r["key"] == name] if name and "darling_core::" in name[:16] else []
+                if len(raws) == 1 and raws[0]["kind"] in ("Fn", "AssocFn"):
+                    ct = Templates(mir.Body(raws[0], self.b.crate))
+                    for r in ct.root_streams():
+                        options.append((ct.render(r, 2, None, follow), (d[0],)))
+            if len(options) > 1:
+                out = []
+                for toks, sites in options:
+                    self._override = {id(tk): toks}
+                    try:
+                        out.append((self.render(stream, 0, None, follow), sites))
+                    finally:
+                        self._override = None
+                return out
+        return [(self.render(stream, 0, None, follow), ())]
+
     def render(self, stream, depth=0, seen=None, follow="fns", argmap=None):
         """Flat list of token strings of `stream`, groups expanded; interpolations as ⟨type⟩.
         follow=True also expands interpolated token streams returned by helper functions of the
@@ -398,7 +436,9 @@ class Templates:
                 if alts and follow and depth < 11 and tk.ty and "TokenStream" in tk.ty:
                     # one branch builds the piece here, another takes it from a helper
                     mixed = self.callee_templates_all(tk, types=False)
-                if argmap and tk.src in argmap:
+                if getattr(self, "_override", None) and id(tk) in self._override:
+                    out.extend(self._override[id(tk)])
+                elif argmap and tk.src in argmap:
                     out.extend(argmap[tk.src])
                 elif alts and mixed and all(c is not self for c in mixed):
                     out.append("⟨alt")
